@@ -142,6 +142,9 @@ structure Flags where
   errMsg : Bool := false
   /-- `r->N` when `reb_check_exit` runs (rebound.c:718) -/
   n : Nat := 1
+  /-- the step itself ended with `r->status = REB_STATUS_GENERIC_ERROR` (integrator_bs.c:430,513: missing
+      derivatives / NaN; integrator_whfast512.c; the no-progress guard of fixes/C08-absorbed-step-error.diff) -/
+  stepError : Bool := false
 deriving Repr, DecidableEq, Inhabited
 
 abbrev stSINGLE_STEP : Int := Status.singleStep.code
@@ -196,6 +199,46 @@ def stepJanus : StepFn K := fun _ t dt dld => ⟨t + dt, dt, dld⟩
 def stepAdaptive (o : Nat → Bool × K × K) : StepFn K := fun k t _dt dld =>
   if (o k).1 then ⟨t + (o k).2.1, (o k).2.2, (o k).2.1⟩ else ⟨t, (o k).2.2, dld⟩
 
+/-! #### the step-size controller of IAS15 (integrator_ias15.c:74, 615-646, 773) -/
+
+/-- `safety_factor = 0.25` (integrator_ias15.c:74) -/
+def ias15SF : K := Scalar.one / Scalar.ofNat 4
+
+/-- integrator_ias15.c:615-646 for one attempt done with step `dtDone`, `raw` being the step size
+    the error estimate asks for: clamp to `min_dt` keeping the sign (615), reject if the new step
+    is less than a quarter of the one just tried (617-639, `(false, dt_new)`: try again with
+    `dt_new`), otherwise limit the growth to a factor four (641-645) and accept (`(true, dt_new)`). -/
+def ias15Ctl (minDt dtDone raw : K) : Bool × K :=
+  let dtNew : K := if ScalarO.lt (ScalarS.fabs raw) minDt then copysign minDt raw else raw
+  if ScalarO.lt (ScalarS.fabs (dtNew / dtDone)) ias15SF then (false, dtNew)
+  else
+    let dtNew : K :=
+      if fgt (ScalarS.fabs (dtNew / dtDone)) Scalar.one then
+        (if fgt (dtNew / dtDone) (Scalar.one / ias15SF) then dtDone / ias15SF else dtNew)
+      else dtNew
+    (true, dtNew)
+
+/-- integrator_ias15.c:773 `while(!reb_integrator_ias15_step(r));` — attempts `j, j+1, …` until one
+    is accepted; `raw j dt` is what the error estimate of attempt `j` (done with step `dt`) asks for.
+    Result: (step done, step proposed), `none` when the fuel runs out. -/
+def ias15Attempts (minDt : K) (raw : Nat → K → K) : Nat → Nat → K → Option (K × K)
+  | 0, _, _ => none
+  | fuel + 1, j, dt =>
+    match ias15Ctl minDt dt (raw j dt) with
+    | (true, dtNew) => some (dt, dtNew)
+    | (false, dtNew) => ias15Attempts minDt raw fuel (j + 1) dtNew
+
+/-- one `reb_simulation_step` of IAS15 as far as time bookkeeping goes (integrator_ias15.c:516,
+    672-673): `t += dt_done; dt_last_done = dt_done; dt = dt_new`; out of fuel = nothing happened -/
+def stepIAS15 (minDt : K) (raw : Nat → Nat → K → K) (fuel : Nat) : StepFn K := fun k t dt dld =>
+  match ias15Attempts minDt (raw k) fuel 0 dt with
+  | some (done, new) => ⟨t + done, new, done⟩
+  | none => ⟨t, dt, dld⟩
+
+/-- the error estimate is not a normal number (no forces): `dt_new = dt_done/safety_factor`
+    (integrator_ias15.c:569, 611) -/
+def ias15RawFree : Nat → Nat → K → K := fun _ _ dt => dt / ias15SF
+
 end steps
 
 /-! ### reb_run_heartbeat and the rest of the loop body -/
@@ -214,7 +257,7 @@ def runHeartbeat (s : Sim K) (f : Flags) : Sim K :=
     `k` is the index of the step within this call, `f` the flags of the boundary it ends at. -/
 def stepAndBeat (step : StepFn K) (k : Nat) (s : Sim K) (f : Flags) : Sim K :=
   let o := step k s.t s.dt s.dtLastDone
-  let st := if f.collision then stCOLLISION else s.status
+  let st := if f.collision then stCOLLISION else if f.stepError then stGENERIC_ERROR else s.status
   let s1 : Sim K := { s with t := o.t, dt := o.dt, dtLastDone := o.dld, stepsDone := s.stepsDone + 1,
                              status := st,
                              hist := ⟨s.t, s.dt, o.t, o.dt, o.dld, st⟩ :: s.hist }
@@ -267,10 +310,8 @@ def exitNoParticles (s : Sim K) (f : Flags) : Sim K :=
     else s
   else s
 
-/-- rebound.c:653-738 -/
-def checkExit (s : Sim K) (tmax : K) (tmaxInf : Bool) (lastFull : K) (f : Flags) : CE K :=
-  -- 654-661
-  let s := exitCountdown s
+/-- rebound.c:662-738: everything after the SINGLE_STEP countdown -/
+def checkExitCore (s : Sim K) (tmax : K) (tmaxInf : Bool) (lastFull : K) (f : Flags) : CE K :=
   -- 662-672
   if (s.status = stPAUSED ∨ s.status = stSCREENSHOT) ∧ f.sigint = false then .blocked s else
   let s : Sim K :=
@@ -283,6 +324,34 @@ def checkExit (s : Sim K) (tmax : K) (tmaxInf : Bool) (lastFull : K) (f : Flags)
   let r := exitTime s tmax tmaxInf lastFull dtsign
   -- 718-728, 737
   .ret (exitNoParticles r.1 f) r.2
+
+/-- rebound.c:653-738 -/
+def checkExit (s : Sim K) (tmax : K) (tmaxInf : Bool) (lastFull : K) (f : Flags) : CE K :=
+  checkExitCore (exitCountdown s) tmax tmaxInf lastFull f
+
+/-! ### a second thread writing `r->status`: the keys of the server / visualisation -/
+
+/-- server.c:346-375 (= display.c:430-500): space toggles RUNNING ↔ PAUSED, arrow-down turns PAUSED into
+    SINGLE_STEP, page-down into SINGLE_STEP − 50.  (`Q` is the user-stop flag of `Flags`.) -/
+inductive Ctl
+  | space | step1 | step50
+deriving DecidableEq, Repr, Inhabited
+
+def Ctl.apply : Ctl → Int → Int
+  | .space, st => if st = stPAUSED then stRUNNING else if st = stRUNNING then stPAUSED else st
+  | .step1, st => if st = stPAUSED then stSINGLE_STEP else st
+  | .step50, st => if st = stPAUSED then stSINGLE_STEP - 50 else st
+
+def applyCtl (evs : List Ctl) (st : Int) : Int := evs.foldl (fun st e => e.apply st) st
+
+/-- `reb_check_exit` while another thread delivers key presses at this boundary: `pre` land before the
+    function is entered (between the heartbeat and the countdown), `evs` after the countdown, before /
+    during the PAUSED wait loop (a key that lands in the middle of the time logic is a data race of the C
+    code and is not modelled). -/
+def checkExitP (s : Sim K) (tmax : K) (tmaxInf : Bool) (lastFull : K) (f : Flags)
+    (pre evs : List Ctl) : CE K :=
+  let s1 := exitCountdown { s with status := applyCtl pre s.status }
+  checkExitCore { s1 with status := applyCtl evs s1.status } tmax tmaxInf lastFull f
 
 /-- how `reb_simulation_integrate` ends -/
 inductive Outcome (K : Type)
@@ -338,6 +407,28 @@ def integrate (step : StepFn K) (env : Nat → Flags) (fuel : Nat) (s : Sim K) (
     (tmaxInf : Bool) : Outcome K :=
   let (s, lf) := start s tmax (env 0)
   match loop step env tmax tmaxInf fuel 0 s lf with
+  | (.done s', lf') => .done (finish s' lf')
+  | (.blocked s', _) => .blocked s'
+  | (.outOfFuel s', _) => .outOfFuel s'
+
+/-- `loop` with key presses: `ctl k` are the keys delivered while the integrator is at boundary `k`
+    (before `reb_check_exit` is entered, and while it waits) -/
+def loopP (step : StepFn K) (env : Nat → Flags) (ctl : Nat → List Ctl × List Ctl) (tmax : K) (tmaxInf : Bool) :
+    Nat → Nat → Sim K → K → Outcome K × K
+  | 0, _, s, lf => (.outOfFuel s, lf)
+  | fuel + 1, k, s, lf =>
+    match checkExitP s tmax tmaxInf lf (env k) (ctl k).1 (ctl k).2 with
+    | .blocked s' => (.blocked s', lf)
+    | .ret s' lf' =>
+      if s'.status < 0 then
+        loopP step env ctl tmax tmaxInf fuel (k + 1) (stepAndBeat step k s' (env (k + 1))) lf'
+      else (.done s', lf')
+
+/-- `integrate` with key presses -/
+def integrateP (step : StepFn K) (env : Nat → Flags) (ctl : Nat → List Ctl × List Ctl) (fuel : Nat) (s : Sim K)
+    (tmax : K) (tmaxInf : Bool) : Outcome K :=
+  let (s, lf) := start s tmax (env 0)
+  match loopP step env ctl tmax tmaxInf fuel 0 s lf with
   | (.done s', lf') => .done (finish s' lf')
   | (.blocked s', _) => .blocked s'
   | (.outOfFuel s', _) => .outOfFuel s'
